@@ -44,17 +44,22 @@ struct VecIter {                                   // VectorDouble::iterator: gh
   double& operator*() { __CPROVER_assert(0 <= pos && pos < limit, "iterator write stays inside the destination range"); static double cell; return cell; }
   VecIter& operator++(int) { pos = pos + 1; return *this; }
 };
+#ifndef VF_ALLOC_HOOK
+#define VF_ALLOC_HOOK(k)
+#endif
 extern int g_writes;        // ghost: number of element accesses through operator[] (stores, in the readers)
 template <typename T> struct VectorT {
   int n; bool cleared;
   VectorT() : n(0), cleared(false) {}
-  VectorT(int k) : n(k), cleared(false) { __CPROVER_assert(0 <= k, "container size taken from the file is validated before allocation (not negative; no int overflow in its computation)"); }
-  void push_back(const T&) { n = n + 1; }
+  VectorT(int k) : n(k), cleared(false) { __CPROVER_assert(0 <= k, "container size taken from the file is validated before allocation (not negative; no int overflow in its computation)"); VF_ALLOC_HOOK(k); }
+  void push_back(const T&) { n = n + 1; g_writes = g_writes + 1; }
   VecIter begin() { VecIter it; it.pos = 0; it.limit = n; return it; }
-  void resize(int k) { __CPROVER_assert(k >= 0, "resize(n): n is not negative"); n = k; cleared = false; }
+  void resize(int k) { __CPROVER_assert(k >= 0, "resize(n): n is not negative"); VF_ALLOC_HOOK(k); n = k; cleared = false; }
   void clear() { n = 0; cleared = true; }
   int size() const { return n; }
   T& operator[](int i) { __CPROVER_assert(0 <= i && i < n, "VectorT::operator[]: index inside the vector (no write past the buffer)"); g_writes = g_writes + 1; static T cell; return cell; }
+  const T& operator[](int i) const { __CPROVER_assert(0 <= i && i < n, "VectorT::operator[] const: index inside the vector (no read past the buffer)"); static T cell; return cell; }
+  bool empty() const { return n <= 0; }
 };
 typedef VectorT<double> VectorDouble;
 typedef VectorT<int> VectorInt;
